@@ -214,6 +214,25 @@ def c05 (env : Env) (ctx0 : Ctx) (o : RunObs) (ref : RunObs) : Bool :=
           | .err (.user u) => (tr.getLast?.bind (scriptFatal env)) == some u
           | _ => false)
 
+/-- **C05** for a cancellation that arrives ASYNCHRONOUSLY while `Run` waits between two attempts of a leaf node
+    (`waitCancel (j+1)` of the visit's script, a wait configured, budget left after the failed attempt `j`): attempt
+    `j` is the last event of the whole trace — no new attempt, no fallback, no post, no further node — and the run
+    reports the context's error. -/
+def c05Wait (env : Env) (o : RunObs) : Bool :=
+  let tr := noWaits o.trace
+  (List.range tr.length).all fun i =>
+    match tr.getD i default with
+    | .exec n v j _ =>
+      (match env.arena n with
+       | .leaf cfg =>
+         let scr := env.leafBeh n v
+         if scr.waitCancel (j + 1) && decide (cfg.effWait > 0) && decide (j + 1 < cfg.effBudget)
+            && (errOf (scr.exec j)).isSome && !(scr.exec j).cancels && !(scr.prep.cancels) then
+           i + 1 == tr.length && o.out == .err (.ctx env.kind)
+         else true
+       | _ => true)
+    | _ => true
+
 /-- **C11** for a batch node inside a flow: once a callback of a batch node's visit has cancelled the context,
     no event of any other visit follows — the batch still finishes (post once), then the flow stops: the run
     terminates instead of starting further nodes or looping. -/
